@@ -44,6 +44,7 @@ func run(c *vrt.Ctx) {
 		{"mat", m.runMat},
 		{"sampleuv", m.runSampleUV},
 		{"samplemv", m.runSampleMV},
+		{"history", m.runHistory},
 		{"docs", func() { a := m.newAcc(); m.runDocs(a); a.flush() }},
 	}
 	want := map[string]bool{}
